@@ -259,3 +259,66 @@ func zzH_C20_tip_reader_vs_writer(t *zzT) {
 	t.Assert(last != nil && bytes.Equal(last.Header.ID, b2.Header.ID), "after append + removal the tip is block 2 again")
 	t.Reach("end")
 }
+
+// C20.a "some complete COMMITTED tip": while the consensus goroutine appends block 3 (one transaction),
+// a reader takes the tip; if it is handed block 3, that block is already in the database — header by
+// ID, height index and its transaction — so that everything the reader looks up next for this tip
+// exists (the generator reads the state of LastBlock().Height+1, RPC serves the tip's transactions).
+// All interleavings within the scheduling budget. (seed C20-5 pushed the block into the cache before
+// the batch write.)
+//
+//zz:opt loop=80 sched=2 join=1 schedule=1 blockfree=0 lockdiscipline=off require=sequential-new-tip,end
+//zz:thorough sched=3 budget=1800s
+func zzH_C20_tip_is_committed(t *zzT) {
+	// mode 1: the reader comes after the writer (deterministic; guards the oracle itself); mode 0: concurrent
+	sequential := t.Choice("reader.after.writer", 2) == 1
+	rounds := 1
+	if !t.Symbolic() && !sequential {
+		rounds = 300 // natively the interleaving cannot be steered: repeat the scenario with a spinning reader
+	}
+	for round := 0; round < rounds; round++ {
+		database, err := db.NewInMemoryDB()
+		if err != nil {
+			t.Fail("db")
+		}
+		b1 := zz20Block(0, bytes.Repeat([]byte{0}, 32), 0)
+		b2 := zz20Block(1, b1.Header.ID, 1)
+		b3 := zz20Block(2, b2.Header.ID, 1)
+		chain := NewChain(&ChainConfig{ChainID: []byte{0, 0, 0, 1}, MaxTransactionsLength: 1000, MaxBlockCache: 4, KeepEventsForHeights: -1})
+		chain.Init(b1, database)
+		for _, b := range []*Block{b1, b2} {
+			if err := chain.AddBlock(database.NewBatch(), b, nil, 0, false); err != nil {
+				t.Fail("setup: AddBlock")
+			}
+		}
+		var wg sync.WaitGroup
+		wg.Add(1)
+		go func() {
+			defer wg.Done()
+			_ = chain.AddBlock(database.NewBatch(), b3, nil, 0, false)
+		}()
+		if sequential {
+			wg.Wait()
+		}
+		tip := chain.LastBlock()
+		if !t.Symbolic() && !sequential {
+			for tip != nil && tip.Header.Height != 2 {
+				tip = chain.LastBlock()
+			}
+		}
+		if tip != nil && tip.Header.Height == 2 {
+			_, okHeader := database.Get(bytes.Join(DBPrefixToBytes(dbPrefixBlockIDToBlockHeader), tip.Header.ID))
+			id, okIndex := database.Get(bytes.Join(DBPrefixToBytes(dbPrefixBlockHeightToBlockID), bytes.FromUint32(2)))
+			_, okTx := database.Get(bytes.Join(DBPrefixToBytes(dbPrefixTxIDToTx), b3.Transactions[0].ID))
+			t.Assert(okHeader && okIndex && bytes.Equal(id, tip.Header.ID) && okTx, "a tip handed to a concurrent reader is committed: header, height index and transactions are in the database")
+			if sequential {
+				t.Reach("sequential-new-tip")
+			}
+		} else {
+			t.Assert(!sequential && tip != nil && bytes.Equal(tip.Header.ID, b2.Header.ID), "otherwise the reader obtains the previous tip")
+		}
+		wg.Wait()
+		database.Close()
+	}
+	t.Reach("end")
+}
